@@ -134,3 +134,56 @@ func execAccessors(spec string, parts []string) (res engine.Result) {
 	res.Outcome = "ok"
 	return
 }
+
+// ---- an init keyword supplied with nil is a supplied value (the default is not used)
+//
+// spec: nilinit|<k>
+
+var nilinitCases = []struct{ name, defs, probe, want string }{
+	{"own-default", "(defflavor @a ((x 7)) () :inittable-instance-variables :gettable-instance-variables)", "(send (make-instance '@a :x nil) :x)", "nil"},
+	{"inherited-variable", "(defflavor @a ((x 7)) () :inittable-instance-variables :gettable-instance-variables) (defflavor @b ((y 1)) (@a))",
+		"(send (make-instance '@b :x nil) :x)", "nil"},
+	{"shadowed-default", "(defflavor @a ((x 7)) () :inittable-instance-variables :gettable-instance-variables) (defflavor @b ((x 8)) (@a))",
+		"(send (make-instance '@b :x nil) :x)", "nil"},
+	{"other-variable-keeps-default", "(defflavor @a ((x 7) (y 9)) () :inittable-instance-variables :gettable-instance-variables)",
+		"(let ((i (make-instance '@a :x nil))) (list (send i :x) (send i :y)))", "(nil 9)"},
+	{"default-init-plist", "(defflavor @a ((x 7)) () :inittable-instance-variables :gettable-instance-variables (:default-init-plist (:x 22)))",
+		"(send (make-instance '@a :x nil) :x)", "nil"},
+}
+
+func enumNilinit(emit func(string)) {
+	for i := range nilinitCases {
+		emit(fmt.Sprintf("nilinit|%d", i))
+	}
+}
+
+func execNilinit(spec string, parts []string) (res engine.Result) {
+	var k int
+	if _, err := fmt.Sscanf(spec, "nilinit|%d", &k); err != nil || k < 0 || len(nilinitCases) <= k {
+		res.Fail("harness:bad-spec", spec)
+		return
+	}
+	c := nilinitCases[k]
+	names := freshNames(2)
+	defer cleanup(names)
+	ren := func(s string) string {
+		return strings.ReplaceAll(strings.ReplaceAll(s, "@a", names[0]), "@b", names[1])
+	}
+	res.Nontrivial = true
+	res.Hit("histories")
+	res.Hit("explicit-nil-init-keyword")
+	if _, err := lisp.Eval("(progn " + ren(c.defs) + ")"); err != nil {
+		res.Fail("var kind=nil-init-keyword case="+c.name+" got=definition-error:"+err.Class, ren(c.defs)+" => "+err.String())
+		return
+	}
+	v, err := lisp.Eval(ren(c.probe))
+	switch {
+	case err != nil:
+		res.Fail("var kind=nil-init-keyword case="+c.name+" got=error:"+err.Class, ren(c.defs)+" "+ren(c.probe)+" => "+err.String())
+	case lisp.Show(v) != c.want:
+		res.Fail("var kind=nil-init-keyword case="+c.name+" got=wrong-value",
+			fmt.Sprintf("%s %s => %s; the keyword was supplied with nil, required %s", ren(c.defs), ren(c.probe), lisp.Show(v), c.want))
+	}
+	res.Outcome = lisp.Show(v)
+	return
+}
